@@ -9,9 +9,9 @@ Scope of the theorems: sliced services (Teletext B, VPS, WSS 625, Caption 625) t
 `vbi_dvb_multiplex_sliced`'s core and `vbi_dvb_mux_feed`, PES and TS mode, every
 configuration reachable through the API, every history of accepted and rejected frames.
 Frames are `vbi_sliced` arrays (`Sliced.WF`: 32-bit id/line, 56 data bytes) without raw
-line requests (`VBI_SLICED_VBI_625`; `raw == NULL`).  Open (validated by correspondence and
-oracle only, see `open_statements` in checks/C06.py): the coroutine `vbi_dvb_mux_cor`,
-raw data units, the round trip through the library's own demultiplexer.
+line requests (`VBI_SLICED_VBI_625`; `raw == NULL`).  Later rounds: the coroutine `vbi_dvb_mux_cor`
+and the round trip through the library's own demultiplexer are in `Props/C06Join.lean`, frames with
+raw lines (and the statements below without the `NoRaw` hypothesis) in `Props/C06Raw.lean`.
 -/
 namespace Zvbi.Props.C06
 open Zvbi.Mux Zvbi.Mux.EnParse
